@@ -471,7 +471,11 @@ fn check_pset(out: &mut Out, t: &Transaction, adds: &[Add], k: bool) -> Option<P
         Ok(b) => format!("ok {}", hex(&sha256d::Hash::hash(&b).to_byte_array())),
         Err(e) => format!("err {}", e),
     };
-    out.s("unique_id_is_txid_of_unsigned_tx", uid == exp_uid, || format!("{} real={} oracle={}", desc, uid, exp_uid));
+    // where no unsigned transaction can be written from the fields the property asks for an error; WHICH error is
+    // today's behaviour (pinned; the K comparison with the model covers it too)
+    let agrees = if exp_uid.starts_with("err") { uid.starts_with("err") } else { uid == exp_uid };
+    out.s("unique_id_is_txid_of_unsigned_tx", agrees, || format!("{} real={} oracle={}", desc, uid, exp_uid));
+    out.pin("unique_id_error_variant", !exp_uid.starts_with("err") || uid == exp_uid, || format!("{} real={} oracle={}", desc, uid, exp_uid));
     // extract reflects the fields
     let exp_ext = match expected_extract(&p) {
         Ok(x) => format!("ok {} {}", hex(&serialize(&x)), flags_of(&x)),
